@@ -1,0 +1,167 @@
+//go:build verif
+// +build verif
+
+// Verification hooks for C07 (build tag "verif"): run the real runScene /
+// prompt with a stopper that is quiescing, without any signal timing.  This
+// file only adds exported entry points calling the package's unexported code
+// unchanged.
+
+package cmd
+
+import (
+	"context"
+	"io/ioutil"
+	"os"
+	"strings"
+	"time"
+
+	"github.com/knz/shakespeare/pkg/crdb/stop"
+	"github.com/knz/shakespeare/pkg/crdb/timeutil"
+)
+
+// verifC07Reporter requests the termination of the play (what runConduct
+// does upon SIGINT/SIGTERM: the stopper starts to quiesce) at the very moment
+// the prompter announces its atScene-th non-empty scene.
+type verifC07Reporter struct {
+	start   time.Time
+	stopper *stop.Stopper
+	atScene int
+	seen    int
+	fired   bool
+}
+
+func (r *verifC07Reporter) epoch() time.Time                                { return r.start }
+func (r *verifC07Reporter) expandTimeRange(float64)                         {}
+func (r *verifC07Reporter) getTimeRange() (float64, float64)                { return 0, 0 }
+func (r *verifC07Reporter) witness(context.Context, string, ...interface{}) {}
+func (r *verifC07Reporter) judge(context.Context, urgency, string, string, ...interface{}) {
+}
+func (r *verifC07Reporter) narrate(_ urgency, _, format string, args ...interface{}) {
+	if r.fired || r.atScene <= 0 || !strings.HasPrefix(format, "act %d, scene %d") {
+		return
+	}
+	r.seen++
+	if r.seen == r.atScene {
+		r.fired = true
+		// No task is running: this returns at once, the stopper quiescing.
+		r.stopper.Quiesce(context.Background())
+	}
+}
+
+var _ reporter = (*verifC07Reporter)(nil)
+
+// VerifC07Result is what the hooks below observed.
+type VerifC07Result struct {
+	Returned  bool   // the call returned within the time allowed
+	Err       string // its error ("" = nil)
+	Fired     bool   // the quiesce request was injected (prompt variant)
+	ElapsedMs int64
+	SetupErr  string
+}
+
+func verifC07Setup(cfgText string) (cfg *config, cleanup func(), err error) {
+	cfg, err = verifParseString(cfgText, nil)
+	if err != nil {
+		return nil, func() {}, err
+	}
+	workDir, err := ioutil.TempDir("", "shk-verif-c07")
+	if err != nil {
+		return nil, func() {}, err
+	}
+	cleanup = func() { _ = os.RemoveAll(workDir) }
+	cfg.dataDir = workDir
+	cfg.subDir = "results"
+	cfg.avoidTimeProgress = true
+	if err := cfg.prepareDirs(context.Background()); err != nil {
+		cleanup()
+		return nil, func() {}, err
+	}
+	return cfg, cleanup, nil
+}
+
+// VerifRunSceneQuiescing calls the real runScene on the first non-empty scene
+// of the play with a stopper that is ALREADY quiescing (it refuses to start
+// the scene's line tasks).
+func VerifRunSceneQuiescing(cfgText string, timeoutMs int) (res VerifC07Result) {
+	cfg, cleanup, err := verifC07Setup(cfgText)
+	if err != nil {
+		res.SetupErr = err.Error()
+		return res
+	}
+	defer cleanup()
+	stopper := stop.NewStopper()
+	defer stopper.Stop(context.Background())
+	stopper.Quiesce(context.Background())
+	pr := &prompter{
+		r:       &verifC07Reporter{start: timeutil.Now(), stopper: stopper},
+		cfg:     cfg,
+		stopper: stopper,
+		collCh:  make(chan collectorEvent, 100),
+		auditCh: make(chan auditableEvent, 100),
+	}
+	var lines []scriptLine
+scan:
+	for _, act := range cfg.play {
+		for _, sc := range act {
+			if !sc.isEmpty() {
+				lines = sc.concurrentLines
+				break scan
+			}
+		}
+	}
+	if len(lines) == 0 {
+		res.SetupErr = "no scene with lines in the compiled play"
+		return res
+	}
+	t0 := time.Now()
+	done := make(chan error, 1)
+	go func() { done <- pr.runScene(context.Background(), lines) }()
+	select {
+	case err := <-done:
+		res.Returned = true
+		if err != nil {
+			res.Err = err.Error()
+		}
+	case <-time.After(time.Duration(timeoutMs) * time.Millisecond):
+	}
+	res.ElapsedMs = int64(time.Since(t0) / time.Millisecond)
+	return res
+}
+
+// VerifPromptQuiesceAt runs the real prompt(); the stopper starts to quiesce
+// exactly when the k-th non-empty scene is announced, i.e. after the prompter
+// last looked at the stopper and before it launches that scene's line tasks.
+func VerifPromptQuiesceAt(cfgText string, k int, timeoutMs int) (res VerifC07Result) {
+	cfg, cleanup, err := verifC07Setup(cfgText)
+	if err != nil {
+		res.SetupErr = err.Error()
+		return res
+	}
+	defer cleanup()
+	stopper := stop.NewStopper()
+	defer stopper.Stop(context.Background())
+	numRepeats := 0
+	rep := &verifC07Reporter{start: timeutil.Now(), stopper: stopper, atScene: k}
+	pr := &prompter{
+		r:          rep,
+		cfg:        cfg,
+		stopper:    stopper,
+		numRepeats: &numRepeats,
+		collCh:     make(chan collectorEvent, 1000),
+		auditCh:    make(chan auditableEvent, 1000),
+	}
+	t0 := time.Now()
+	done := make(chan error, 1)
+	go func() { done <- pr.prompt(context.Background()) }()
+	select {
+	case err := <-done:
+		res.Returned = true
+		if err != nil {
+			res.Err = err.Error()
+		}
+	case <-time.After(time.Duration(timeoutMs) * time.Millisecond):
+	}
+	res.Fired = rep.fired
+	res.ElapsedMs = int64(time.Since(t0) / time.Millisecond)
+	return res
+}
